@@ -138,8 +138,8 @@ fn fmt_write(w: &mut Option<DeferredWriter>, kind: u8, seed: u32) {
         0 => flussab_cnf::cnf::write_header(
             wr,
             flussab_cnf::cnf::Header {
-                var_count: rng.small(1 << 40),
-                clause_count: rng.small(1 << 40),
+                var_count: rng.small(crate::rng::TWO_POW_40),
+                clause_count: rng.small(crate::rng::TWO_POW_40),
             },
         ),
         1 => {
@@ -196,7 +196,7 @@ fn fmt_write(w: &mut Option<DeferredWriter>, kind: u8, seed: u32) {
             let n = rng.small(8);
             let lits: Vec<isize> = (0..n)
                 .map(|_| {
-                    let v = 1 + rng.small(1 << 40) as isize;
+                    let v = 1 + rng.small(crate::rng::TWO_POW_40) as isize;
                     if rng.chance(1, 2) {
                         v
                     } else {
